@@ -21,6 +21,7 @@ import (
 	"strings"
 	"sync"
 	"testing"
+	"time"
 
 	"github.com/daeuniverse/dae/common/assets"
 	"github.com/daeuniverse/dae/common/consts"
@@ -818,7 +819,13 @@ func TestC04_Dns(t *testing.T) {
 	if vkThorough() {
 		nprobe = 32
 	}
+	deadline, hasDeadline := t.Deadline()
 	rapid.Check(t, func(t *rapid.T) {
+		if hasDeadline && time.Until(deadline) < 150*time.Second {
+			// wall-clock budget nearly used up on a busy machine: stop exploring (never a verdict)
+			vkClass("C04.dns", "skipped_wall_clock_budget")
+			return
+		}
 		geoDir, err := c04dGeoDir()
 		if err != nil {
 			t.Fatalf("harness: geodata: %v", err)
